@@ -53,9 +53,9 @@ type oval struct {
 	isStr bool   // the term is a string (raw comparison of strings)
 	elems []oval
 	// function values: a literal with the frame it captured, or a declared function
-	lit   *ast.FuncLit
-	fn    *core.FuncInfo
-	cap   *ordFrame
+	lit *ast.FuncLit
+	fn  *core.FuncInfo
+	cap *ordFrame
 }
 
 type ordFrame struct {
